@@ -65,7 +65,7 @@ def rh (c impl : List String) : String :=
       | some _, none => "1"
       | none, _ => "na"
     let out := if inTime then s!"ret=ok ack=intime ackacc={ackacc} probe=na stopped=1 exit=0"
-      else s!"ret=fail ack=late ackacc=na probe={if Model.UpgHandshake.oldAccepts o dl then "served" else "unserved"} stopped=1 exit=0"
+      else s!"ret=ok ack=late ackacc=na probe={if Model.UpgHandshake.oldAccepts o dl then "served" else "unserved"} stopped=1 exit=0"
     let g (k : String) := (kv impl k).getD "?"
     let spec := g "ret" == "ok" && g "ack" == "intime" && g "ackacc" == "1" && g "probe" != "unserved" && g "exit" == "0"
     verdict (joinWith " " impl == out) spec out
